@@ -114,7 +114,7 @@ def plan_units(ctx):
     # random well-formed schemas
     osets = B.option_sets("rs.")
     names = list(osets)
-    nrand = 6 if quick else 60
+    nrand = 4 if quick else 60
     for i in range(nrand):
         g = randschema.Gen(rng, ntypes=rng.choice([4, 6, 8] if quick else [4, 6, 8, 12, 16]))
         p = d / f"rnd{i}.tl"
@@ -123,7 +123,7 @@ def plan_units(ctx):
         for on in chosen:
             add(f"rnd{i}", "random", [p], on, osets[on])
     # mutated schemas
-    nmut = 16 if quick else 160
+    nmut = len(B.MutGen.BLOCKS) if quick else 160     # quick: every mutation block once
     blocks = list(B.MutGen.BLOCKS)
     rng.shuffle(blocks)
     for i in range(nmut):
@@ -241,7 +241,7 @@ def run(ctx):
     phase("corr decon")
     # ---- end to end units
     jobs = plan_units(ctx) if not berr else []
-    deadline = time.time() + (140 if quick else 3600)
+    deadline = time.time() + (100 if quick else 3600)   # no new unit starts after this; running builds finish
     results = []
     lock = threading.Lock()
     stats = {"planned": len(jobs), "ran": 0, "skipped_budget": 0, "built": 0, "nobuild": 0, "rejected": 0, "rejected_with_previous_outdir": 0}
